@@ -1,0 +1,39 @@
+//go:build verif
+
+// Contracts for the ACCESS procedure (C12), checked by /verif/govc (comment-only file).
+package absnfs
+
+// The policy / tuning snapshots currently published by an AbsfsNFS (atomic pointers).
+//@ specdef curPolicy(n *AbsfsNFS) *PolicyOptions = ptrof(atomicptr[addr(n.policy)], *PolicyOptions)
+//@ specdef curTuning(n *AbsfsNFS) *TuningOptions = ptrof(atomicptr[addr(n.tuning)], *TuningOptions)
+
+// UNIX permission class of the caller, from the property statement: root gets 7; otherwise the
+// owner class if the effective uid owns the object, else the group class if the primary or any
+// auxiliary gid matches, else the other class.
+//@ specdef permClass(mode os.FileMode, fuid uint32, fgid uint32, euid uint32, egid uint32, inAux bool) mathint = ite(euid == 0, 7, ite(euid == fuid, (mode >> 6) & 7, ite(egid == fgid || inAux, (mode >> 3) & 7, mode & 7)))
+
+// Bits granted for a permission class: READ needs r; LOOKUP needs x and a directory; EXECUTE needs x;
+// MODIFY and EXTEND need w; DELETE needs w and a directory; the three modifying bits are masked on a
+// read-only export; nothing outside the request is ever granted.
+//@ specdef accessSpec(perm mathint, isDir bool, req uint32, ro bool) mathint = ite(req & 1 != 0 && perm & 4 != 0, 1, 0) + ite(req & 2 != 0 && isDir && perm & 1 != 0, 2, 0) + ite(req & 32 != 0 && perm & 1 != 0, 32, 0) + ite(!ro && req & 4 != 0 && perm & 2 != 0, 4, 0) + ite(!ro && req & 8 != 0 && perm & 2 != 0, 8, 0) + ite(!ro && req & 16 != 0 && isDir && perm & 2 != 0, 16, 0)
+
+//@ specdef inAuxGroups(ctx *AuthContext, gid uint32) bool = ctx.AuthSys != nil && exists(j, 0, len(ctx.AuthSys.AuxGIDs), ctx.AuthSys.AuxGIDs[j] == gid)
+
+// A handler's server is wired up the way New/NewServer/SetHandler leave it.
+//@ specdef srvOK(h *NFSProcedureHandler) bool = h != nil && h.server != nil && h.server.handler != nil && h.server.handler.attrCache != nil && h.server.handler.fileMap != nil && curPolicy(h.server.handler) != nil && curTuning(h.server.handler) != nil
+
+//@ func NFSProcedureHandler.handleAccess
+//@ prop C12
+//@ requires srvOK(h) && reply != nil && authCtx != nil
+//@ loop 1 invariant !isGroupMember && authCtx != nil && authCtx.AuthSys != nil && 0 <= rangeindex + 1 && rangeindex + 1 <= len(authCtx.AuthSys.AuxGIDs)
+//@ loop 1 invariant forall(j, 0, rangeindex + 1, authCtx.AuthSys.AuxGIDs[j] != fileGid)
+//@ loop 1 invariant fileMode == attrs.Mode && fileUid == attrs.Uid && fileGid == attrs.Gid && effectiveUID == authCtx.EffectiveUID && effectiveGID == authCtx.EffectiveGID && attrs != nil
+// intermediate step (keeps each query small): the class bits chosen are the specification's
+//@ callassert atomic.Pointer.Load : [perm-class] permBits == permClass(attrs.Mode, attrs.Uid, attrs.Gid, authCtx.EffectiveUID, authCtx.EffectiveGID, inAuxGroups(authCtx, attrs.Gid)) && isDir == (attrs.Mode & os.ModeDir != 0) && accessAllowed < 64
+// the word written as the ACCESS result is exactly the specification's
+//@ callassert binary.Write : [granted-exact] accessAllowed == accessSpec(permClass(attrs.Mode, attrs.Uid, attrs.Gid, authCtx.EffectiveUID, authCtx.EffectiveGID, inAuxGroups(authCtx, attrs.Gid)), attrs.Mode & os.ModeDir != 0, access, curPolicy(h.server.handler).ReadOnly)
+// consequences named in the property, as separate obligations
+//@ callassert binary.Write : [subset-of-request] accessAllowed & access == accessAllowed && accessAllowed < 64
+//@ callassert binary.Write : [ro-never-modify] curPolicy(h.server.handler).ReadOnly ==> accessAllowed & 28 == 0
+//@ callassert binary.Write : [lookup-delete-dirs-only] attrs.Mode & os.ModeDir == 0 ==> accessAllowed & 18 == 0
+//@ callassert binary.Write : [value-written] unboxed(arg2, uint32) == accessAllowed
